@@ -12,7 +12,7 @@ CFG = dict(
         "hand-written model Boundary/Marshal.v of genFunctionWrapper / callBin / call / convertLiteralValue / genInterfaceWrapper, tied by behavioural correspondence on every generated crossing",
         "reference = the same call or access without a boundary: native observation of the manufactured Go values, Go's parameter binding rule, native calls of the host methods, compiled Go (go build) for the script-types-as-host-interfaces stream",
     ],
-    level_text="Coq theorems (unbounded: all types of the grammar, all values incl. nested function graphs, all argument lists, all placements) about an executable model Y of yaegi's boundary marshalling and the contract G (identity / Go's parameter binding): round trip of one value in both directions, functions wrapped once and called through wrappers, variadic packing/spreading, zero-skip soundness, result placement, host variables, receiver offset, interface wrappers, method dispatch of script types embedding host interfaces (over measured reflect facts), session histories with cancellations; each under a decidable side condition whose negation is a recorded finding with a refutation witness. Y is tied to the source on every run by correspondence: every generated crossing (arguments, results, variables, methods, wrapper probes) observed on the real interpreter is re-computed by Y inside Coq.",
+    level_text="Coq theorems (unbounded: all types of the grammar, all values incl. nested function graphs, all argument lists, all placements) about an executable model Y of yaegi's boundary marshalling and the contract G (identity / Go's parameter binding): round trip of one value in both directions, functions wrapped once and called through wrappers, variadic packing/spreading, zero-skip soundness, result placement, host variables, receiver offset, interface wrappers, method dispatch of script types embedding host interfaces (over measured reflect facts), session histories with cancellations, the shape of the argument expression (box nesting to any depth), go/defer statements (when arguments are read); each under a decidable side condition whose negation is a recorded finding with a refutation witness. Y is tied to the source on every run by correspondence: every generated crossing (arguments, results, variables, methods, wrapper probes) observed on the real interpreter is re-computed by Y inside Coq.",
     level_note="Partial: reflect itself is assumed (trusted base). Trusted: Coq kernel + vm_compute, no axioms; the harness (value generators, canonical renderers on both sides, parser); the Go toolchain for the interface stream.",
     technique="Coq proof by induction over rose-tree values and lists + model/implementation correspondence evaluated in Coq on seeded signatures x values, both directions",
     assumptions=[
@@ -20,6 +20,8 @@ CFG = dict(
         "the main stream contains no negative zero anywhere (in-script rendering calls would lose it); negative zero has its own stream",
         "embedded-interface stream: the facts about reflect that genInterfaceWrapper depends on (does the reconstructed frame type implement the interface, has it promoted methods, are they callable) are measured natively in the harness binary and given to Y as inputs",
         "session stream: only top-level functions are kept across a cancellation (closures created by getFunc are dead after any cancellation: C10-closure-after-cancel)",
+        "go/defer stream: observed in a child process with GOMAXPROCS(1), so that a goroutine started by a go statement does not run before the script blocks (after the re-assignment); on the unchanged tree every main-stream cell is also scheduling-independent",
+        "argument-shape stream: echoes are compared by class (concrete value / host wrapper / interp.valueInterface / panic); the plainest shape's echo in the same interpreter is recorded with each mismatch",
         "script-side observation uses strconv/math host calls as trusted infrastructure (also used by the in-script oracle)",
     ],
     harness_timeout=2400,
